@@ -401,40 +401,84 @@ def cl_scalar_copy(kind, args, a, op='all'):
     return True, ''
 
 
-def cl_bspline(kind, xk, yk, deg, r):
-    """bspline(spl) ranges reproduce the spline on [first knot, last knot)."""
+def _make_spline(kind, xk, yk, deg):
+    """kind: 'splrep' (tck from data), 'interp' (BSpline from data), 'univariate' (UnivariateSpline from data),
+    'tck' / 'bspline' (xk = full knot vector t, yk = B-spline coefficients: any breakpoints).
+    -> (object to pass to bspline(), evaluator, tck)"""
     from scipy import interpolate as si
-    from abel.tools.polynomial import bspline, PiecewisePolynomial
-    xk = np.asarray(xk, float); yk = np.asarray(yk, float); r = np.asarray(r, float)
+    xk = np.asarray(xk, float); yk = np.asarray(yk, float)
     if kind == 'splrep':
         spl = si.splrep(xk, yk, k=deg, s=0)
-        ev = lambda x: si.splev(x, spl)
-    elif kind == 'interp':
+        return spl, (lambda x: si.splev(x, spl)), spl
+    if kind == 'interp':
         spl = si.make_interp_spline(xk, yk, k=deg)
-        ev = spl
-    elif kind == 'univariate':
+        return spl, spl, (spl.t, spl.c, spl.k)
+    if kind == 'univariate':
         spl = si.UnivariateSpline(xk, yk, k=deg, s=0)
-        ev = spl
-    else:
-        raise ValueError(kind)
+        kn = spl.get_knots(); co = spl.get_coeffs(); k = len(co) - len(kn) + 1
+        return spl, spl, (np.pad(kn, k, 'edge'), co, k)
+    if kind == 'tck':
+        spl = (xk, yk, deg)
+        return spl, (lambda x: si.splev(x, spl)), spl
+    if kind == 'bspline':
+        spl = si.BSpline(xk, yk, deg)
+        return spl, spl, (xk, yk, deg)
+    raise ValueError(kind)
+
+
+def cl_bspline(kind, xk, yk, deg, r):
+    """bspline(spl): (i) every non-degenerate PPoly interval [x_i, x_{i+1}] becomes the range
+    (x_i, x_{i+1}, coefficients in ascending powers of (x - x_i), r_0 = x_i) -- the real breakpoints, also negative ones;
+    (ii) PiecewisePolynomial(r, ranges).func is the spline on [max(x_0, 0), x_N) and 0 elsewhere; (iii) its abel is the
+    line-of-sight integral of that function, interval by interval."""
+    from scipy.interpolate import PPoly
+    from abel.tools.polynomial import bspline, PiecewisePolynomial
+    r = np.asarray(r, float)
+    spl, ev, tck = _make_spline(kind, xk, yk, deg)
     ranges = bspline(spl)
+    pp = PPoly.from_spline(tck)
+    x = pp.x; c = pp.c
+    # (i) bookkeeping against PPoly
+    exp = [(x[i], x[i + 1], c[::-1, i], x[i]) for i in range(len(x) - 1) if x[i] != x[i + 1]]
+    rep = lambda t: (float(t[0]), float(t[1]), np.asarray(t[2], float), float(t[3]) if len(t) > 3 else 0.0,
+                     float(t[4]) if len(t) > 4 else 1.0)
+    # a range may be clipped at 0 on the left (the function on r >= 0 is what matters), but the expansion point
+    # and the coefficients must describe the same polynomial: compare as functions at three points of each interval
+    got = [rep(t) for t in ranges]
+    for (a, b, cc, x0) in exp:
+        if b <= 0:
+            continue
+        lo = max(a, 0.0)
+        ts = lo + (b - lo) * np.array([0.1, 0.5, 0.9])
+        ref = sum(ck * (ts - x0)**k for k, ck in enumerate(cc))
+        val = np.zeros_like(ts)
+        for (ga, gb, gc, g0, gs) in got:
+            m = (ts >= max(ga, 0.0)) & (ts < gb)
+            val[m] += sum(ck * ((ts[m] - g0) / gs)**k for k, ck in enumerate(gc))
+        scale = np.sum(np.abs(cc) * max(abs(b - x0), abs(lo - x0), 1.0)**np.arange(len(cc))) + 1.0
+        if np.any(np.abs(val - ref) > 1e-10 * scale):
+            return False, 'ranges do not reproduce the PPoly piece on [%r, %r] (breakpoint %r)' % (float(a), float(b), float(x0))
+    # (ii) func
     P = PiecewisePolynomial(r, ranges)
-    inside = (r >= xk[0]) & (r < xk[-1])
-    ref = np.where(inside, ev(r), 0.0)
-    scale = np.max(np.abs(yk)) * 10 + 1.0
+    x0, xN = float(x[0]), float(x[-1])
+    lo = max(x0, 0.0)
+    inside = (r >= lo) & (r < xN)
+    ref = np.where(inside, ev(np.where(inside, r, lo)), 0.0)
+    scale = (np.max(np.abs(np.asarray(tck[1], float))) + 1.0) * 10
     ok, d = _cmp('func', P.func, ref, scale * np.ones_like(r), 1e-10)
     if not ok:
         return ok, d
-    # abel by quadrature of the spline itself
+    # (iii) abel by quadrature of the spline itself, split at the breakpoints
     ab = np.zeros_like(r)
-    for i, x in enumerate(r):
-        if x < xk[-1]:
-            ylo = np.sqrt(max(xk[0]**2 - x * x, 0.0)); yup = np.sqrt(xk[-1]**2 - x * x)
-            pts = [np.sqrt(t * t - x * x) for t in xk[1:-1] if t > x and ylo < np.sqrt(t * t - x * x) < yup]
-            v, _ = integrate.quad(lambda y: float(ev(np.hypot(x, y))), ylo, yup, points=pts or None,
+    brk = np.unique(x)
+    for i, xx in enumerate(r):
+        if xx < xN:
+            ylo = np.sqrt(max(lo * lo - xx * xx, 0.0)); yup = np.sqrt(xN * xN - xx * xx)
+            pts = [np.sqrt(t * t - xx * xx) for t in brk if t > xx and t > lo and ylo < np.sqrt(t * t - xx * xx) < yup]
+            v, _ = integrate.quad(lambda y: float(ev(np.hypot(xx, y))), ylo, yup, points=pts or None,
                                   epsabs=0, epsrel=1e-12, limit=400)
             ab[i] = 2 * v
-    return _cmp('abel', P.abel, ab, scale * xk[-1] * 2 * np.ones_like(r), 1e-8)
+    return _cmp('abel', P.abel, ab, scale * xN * 2 * np.ones_like(r), 1e-8)
 
 
 def cl_approx_gaussian(tol):
